@@ -93,6 +93,37 @@ let judge _id (c : cursor) (r : cursor) : bool * string =
        if List.length kept <> ii mk || not (List.for_all2 qs_eq (kept @ removed) ml) then
          disagree "extractDominated_zone_vs_index" "extractDominated" "C12 zone-list model and C10 index model differ");
     (ik < n && n > 2, "ed")
+  | "edi" ->
+    let n = next_int c in let nold = next_int c in let d = next_int c in
+    let l = chunks d (next_n c (n * d) next_q) in
+    let ioe = next_small r in let imid = next_small r in let iend = next_small r in
+    let il = chunks d (next_n r (n * d) next_q) in
+    let site = "extractDominatedIncremental" in
+    let key v = String.concat "," (List.map string_of_q v) in
+    if List.sort compare (List.map key l) <> List.sort compare (List.map key il) then
+      oracle_fail "extractDominatedIncremental_perm" site "output is not a permutation of the input";
+    if not (ioe <= imid && imid <= iend && iend <= n) then
+      oracle_fail "extractDominatedIncremental_range" site (Printf.sprintf "returned iterators %d %d %d not ordered inside [0,%d]" ioe imid iend n);
+    (* O: the documented layout  <old good> oldEnd <new good> mid <old bad> end <new bad + discarded>:
+       old entries only in the two old zones, new entries only in the two new zones *)
+    let seg a b = take (b - a) (drop a il) in
+    let ms x = List.sort compare (List.map key x) in
+    if ms (seg 0 ioe @ seg imid iend) <> ms (take nold l) || ms (seg ioe imid @ seg iend n) <> ms (drop nold l) then
+      oracle_fail "extractDominatedIncremental_zones" site
+        (Printf.sprintf "old/new entries are not in their zones (oldEnd %d mid %d end %d, %d old of %d)" ioe imid iend nold n);
+    (match extractDominatedIncremental_idx dominates l O (nat_of_int nold) (nat_of_int n) with
+     | UB -> oracle_fail "extractDominatedIncremental_no_UB" site "model reaches UB"
+     | Fuel -> disagree "extractDominatedIncremental_fuel" site "out of fuel"
+     | Ok (((ml, moe), mmid), mend) ->
+       if (ii moe, ii mmid, ii mend) <> (ioe, imid, iend) then
+         disagree "extractDominatedIncremental_bounds" site (Printf.sprintf "impl %d %d %d model %d %d %d" ioe imid iend (ii moe) (ii mmid) (ii mend));
+       if not (List.length ml = List.length il && List.for_all2 qs_eq ml il) then disagree "extractDominatedIncremental_order" site "arrays differ";
+       (* cross-check with C12's zone-list model (five zones) *)
+       let ((((og, ng), ob), nb), nr) = extractDominatedIncremental (take nold l) (drop nold l) in
+       if List.length og <> ioe || List.length og + List.length ng <> imid || List.length og + List.length ng + List.length ob <> iend
+          || not (List.for_all2 qs_eq (og @ ng @ ob @ nb @ nr) ml) then
+         disagree "extractDominatedIncremental_zone_vs_index" site "C12 zone-list model and C10 index model differ");
+    (iend < n && nold > 0 && nold < n, "edi")
   | "wit" ->
     let nS = next_int c in
     let v = next_nats c in
